@@ -69,6 +69,7 @@ static int cv_fold(cv_val v0, cv_val max, cv_val *val) {
 #endif
 
 static int cv_ok, cv_neg;   /* specification outcome of the last kernel call (used by the generated REACH witnesses) */
+static u64 cv_ret;          /* what the kernel returned */
 static cv_val cv_v;
 
 #define C15_STEP(W, MAX) do { \
@@ -79,7 +80,7 @@ static cv_val cv_v;
     CHECK(o[0] == (u64)cv_ok, "accumulate_digit returns true iff r*10+d <= Maximum in exact arithmetic"); \
     if (cv_ok) CHECK(o[1] == (u64)cv_v, "accumulate_digit stores exactly r*10+d"); \
     else CHECK(o[1] == cv_r0, "accumulate_digit leaves the accumulator unchanged on overflow"); \
-    OBS(o[0]); OBS(o[1]); \
+    OBS(o[0]); OBS(o[1]); cv_ret = o[0]; \
   } while (0)
 
 /* every kernel macro: specification first, then WIT (REACH witnesses about the drawn input, placed before the call so that they do
@@ -93,7 +94,7 @@ static cv_val cv_v;
     CHECK(o[0] == (u64)cv_ok, WHAT " returns true iff the exact value fits Maximum"); \
     if (cv_ok) CHECK(o[1] == (u64)cv_v, WHAT " stores the mathematically exact value"); \
     else CHECK(o[1] == (u64)cv_v, WHAT " on overflow holds the exact value of the longest prefix that fits, never a wrapped value"); \
-    OBS(o[0]); OBS(o[1]); \
+    OBS(o[0]); OBS(o[1]); cv_ret = o[0]; \
   } while (0)
 
 #define C15_DIGITS(W, MAX, WIT) C15_FOLD(W, MAX, cv_r0, "accumulate_digits", WIT)
@@ -110,7 +111,7 @@ static cv_val cv_v;
     CHECK(o[0] == (u64)cv_ok, "convert_negative returns true iff the magnitude is at most -(minimum)"); \
     if (cv_ok) CHECK(o[1] == ((0 - (u64)cv_v) & CV_MASK), "convert_negative stores exactly minus the value"); \
     else CHECK(o[1] == cv_r0, "convert_negative leaves the result untouched on overflow"); \
-    OBS(o[0]); OBS(o[1]); \
+    OBS(o[0]); OBS(o[1]); cv_ret = o[0]; \
   } while (0)
 
 #define C15_CSIG(W, WIT) do { \
@@ -122,7 +123,7 @@ static cv_val cv_v;
     CHECK(o[0] == (u64)cv_ok, "convert_signed returns true iff the value fits the signed type"); \
     if (cv_ok) CHECK(o[1] == ((cv_neg ? 0 - (u64)cv_v : (u64)cv_v) & CV_MASK), "convert_signed stores the mathematically exact value"); \
     else CHECK(o[1] == (cv_neg ? 0 : (u64)cv_v), "convert_signed on overflow holds 0 or the exact value of a prefix, never a wrapped value"); \
-    OBS(o[0]); OBS(o[1]); \
+    OBS(o[0]); OBS(o[1]); cv_ret = o[0]; \
   } while (0)
 
 static void c15_calls(void);   /* generated: the kernel calls (macros above), each followed by its REACH witnesses */
